@@ -18,6 +18,8 @@ impl<'a> Bytes<'a> {
         // SAFETY: obtain pointer to slice end; start points to slice start.
         let end = unsafe { start.add(slice.len()) };
         let cursor = start;
+        #[cfg(httparse_verif)] crate::verif::harvest(slice);
+        #[cfg(httparse_verif)] crate::verif::op(crate::verif::OP_NEW, slice.len(), start as usize, cursor as usize, end as usize);
         Bytes {
             start,
             end,
@@ -33,6 +35,7 @@ impl<'a> Bytes<'a> {
 
     #[inline]
     pub fn peek(&self) -> Option<u8> {
+        #[cfg(httparse_verif)] crate::verif::op(crate::verif::OP_PEEK, 0, self.start as usize, self.cursor as usize, self.end as usize);
         if self.cursor < self.end {
             // SAFETY:  bounds checked
             Some(unsafe { *self.cursor })
@@ -50,6 +53,7 @@ impl<'a> Bytes<'a> {
     /// and `self.cursor.add(n)` is either `self.end` or points to a valid byte.
     #[inline]
     pub unsafe fn peek_ahead(&self, n: usize) -> Option<u8> {
+        #[cfg(httparse_verif)] crate::verif::op(crate::verif::OP_PEEK_AHEAD, n, self.start as usize, self.cursor as usize, self.end as usize);
         debug_assert!(n <= self.len());
         // SAFETY: by preconditions
         let p = unsafe { self.cursor.add(n) };
@@ -67,6 +71,7 @@ impl<'a> Bytes<'a> {
         // TODO: once we bump MSRV, use const generics to allow only [u8; N] reads
         // TODO: drop `n` arg in favour of const
         // let n = core::mem::size_of::<U>();
+        #[cfg(httparse_verif)] crate::verif::op(crate::verif::OP_PEEK_N, n, self.start as usize, self.cursor as usize, self.end as usize);
         self.as_ref().get(..n)?.try_into().ok()
     }
 
@@ -87,6 +92,7 @@ impl<'a> Bytes<'a> {
     /// Caller must ensure that Bytes hasn't been advanced/bumped by more than [`Bytes::len()`].
     #[inline]
     pub unsafe fn advance(&mut self, n: usize) {
+        #[cfg(httparse_verif)] crate::verif::op(crate::verif::OP_ADVANCE, n, self.start as usize, self.cursor as usize, self.end as usize);
         self.cursor = self.cursor.add(n);
         debug_assert!(self.cursor <= self.end, "overflow");
     }
@@ -103,6 +109,7 @@ impl<'a> Bytes<'a> {
 
     #[inline]
     pub fn slice(&mut self) -> &'a [u8] {
+        #[cfg(httparse_verif)] crate::verif::op(crate::verif::OP_SLICE, 0, self.start as usize, self.cursor as usize, self.end as usize);
         // SAFETY: not moving position at all, so it's safe
         let slice = unsafe { slice_from_ptr_range(self.start, self.cursor) };
         self.commit();
@@ -117,6 +124,7 @@ impl<'a> Bytes<'a> {
     /// implies a skip of at most 3).
     #[inline]
     pub unsafe fn slice_skip(&mut self, skip: usize) -> &'a [u8] {
+        #[cfg(httparse_verif)] crate::verif::op(crate::verif::OP_SLICE_SKIP, skip, self.start as usize, self.cursor as usize, self.end as usize);
         debug_assert!(skip <= self.cursor.offset_from(self.start) as usize);
         let head = slice_from_ptr_range(self.start, self.cursor.sub(skip));
         self.commit();
@@ -125,6 +133,7 @@ impl<'a> Bytes<'a> {
 
     #[inline]
     pub fn commit(&mut self) {
+        #[cfg(httparse_verif)] crate::verif::op(crate::verif::OP_COMMIT, 0, self.start as usize, self.cursor as usize, self.end as usize);
         self.start = self.cursor
     }
 
@@ -157,6 +166,7 @@ impl<'a> Bytes<'a> {
     /// Must ensure invariant `bytes.start() <= ptr && ptr <= bytes.end()`.
     #[inline]
     pub unsafe fn set_cursor(&mut self, ptr: *const u8) {
+        #[cfg(httparse_verif)] crate::verif::op(crate::verif::OP_SET_CURSOR, ptr as usize, self.start as usize, self.cursor as usize, self.end as usize);
         debug_assert!(ptr >= self.start);
         debug_assert!(ptr <= self.end);
         self.cursor = ptr;
@@ -185,6 +195,7 @@ impl Iterator for Bytes<'_> {
 
     #[inline]
     fn next(&mut self) -> Option<u8> {
+        #[cfg(httparse_verif)] crate::verif::op(crate::verif::OP_NEXT, 0, self.start as usize, self.cursor as usize, self.end as usize);
         if self.cursor < self.end {
             // SAFETY: bounds checked dereference
             unsafe {
